@@ -34,9 +34,9 @@ class S(vlib.Spec):
             if "use_type_alias=false" in be and code == 4 and re.search(r"cannot use|mismatched types|has no field or method|invalid operation|cannot convert", errs):
                 # typedefs generated as defined types (type T int32 / type T S) without conversions or methods
                 return "C01-use_type_alias_false-typedef-as-defined-type"
-            if code == 4 and "cannot refer to unexported field" in errs:
+            if code == 4 and ("cannot refer to unexported field" in errs or "not exported by package" in errs):
                 return "C01-leading-underscore-name-unexported"
-            if code == 4 and "template=slim" in be and "imported and not used" in errs:
+            if code == 4 and ("template=slim" in be or "no_default_serdes" in be) and "imported and not used" in errs:
                 return "C01-slim-template-unused-import"
             texts = " ".join((case.get("program") or {}).get("files", {}).values())
             if code == 4 and re.search(r"duplicate case 0|ReadField0 already declared|duplicate key 0", errs) and re.search(r"throws\s*\(\s*[^)]*\b0\s*:", texts):
